@@ -3,10 +3,13 @@ Emitter half and glue for flat documents whose list values hold scalars and sing
 
 * `emitValue_mlist`, `emit_mdoc`    the emitter writes exactly `mdocText` with the layouts `MValue.canonLayout` chooses
                                     (`_needs_multiline` on the AST list: ANY inline-map item forces one item per line —
-                                    `needsMultiline_entry` —, otherwise ≥ 3 items or an annotation-shaped string); an inline-map
+                                    `needsMultiline_entry`, `needsMultiline_mitems` —, otherwise ≥ 3 items or an
+                                    annotation-shaped string); an inline-map
                                     item is written `key::value` (`emitPairs`, PATTERN / REGEX keys force quotes);
 * `mListToks_ok`, `MLine.toV`, `mdocToks_bridge`, `toVLinesM_ok`   the lexer's token list (`Lemmas/MapLex`) is a token list the
                                     parser half (`Lemmas/MapParse`, `Lemmas/ListDocParse`) reads;
+* `listP`, `mListToks_okX`, `MValue.vw`, `toXLines`, `toXLines_ok`   the same with every item at its position, for the exact
+                                    warnings (`Lemmas/MapDocParse`: `VLine.OKX`);
 * `mdocAt`                          the document read back (nodes positioned at their keys).
 -/
 import Octave.Lemmas.MapLex
@@ -109,6 +112,37 @@ theorem needsMultilineAux_entry (items : List MItem) : ∀ n, items.any MItem.is
 
 theorem needsMultiline_entry (items : List MItem) (h : items.any MItem.isEntry = true) :
     needsMultiline (items.map MItem.value) = true := needsMultilineAux_entry items 0 h
+
+/-- the item is a scalar string of annotation shape `NAME<qualifier>` (forces the multi-line layout, as in lists of scalars). -/
+def MItem.isAnnot : MItem → Bool
+  | .scalar s => itemAnnot s
+  | .entry _ _ => false
+
+theorem needsMultilineAux_mitems (items : List MItem) : ∀ n,
+    needsMultilineAux (items.map MItem.value) n
+      = (items.any MItem.isEntry || items.any MItem.isAnnot || decide (n + items.length ≥ 3)) := by
+  induction items with
+  | nil => intro n; simp [needsMultilineAux]
+  | cons x r ih =>
+    intro n
+    cases x with
+    | entry k v =>
+      rw [needsMultilineAux_entry (MItem.entry k v :: r) n (by simp [MItem.isEntry])]
+      simp [MItem.isEntry]
+    | scalar s =>
+      rw [List.map_cons, show (MItem.scalar s).value = s.value from rfl, needsMultilineAux_cons, ih (n + 1)]
+      simp only [List.any_cons, MItem.isEntry, MItem.isAnnot, List.length_cons, Bool.false_or]
+      have e : decide (n + 1 + r.length ≥ 3) = decide (n + (r.length + 1) ≥ 3) := by
+        simp only [decide_eq_decide]; omega
+      rw [e]
+      cases itemAnnot s <;> cases r.any MItem.isEntry <;> simp
+
+/-- **which layout the emitter chooses** (`_needs_multiline` on a list of the class): one item per line iff some item is an
+inline map, or some scalar item is an annotation-shaped string, or there are three or more items. -/
+theorem needsMultiline_mitems (items : List MItem) :
+    needsMultiline (items.map MItem.value)
+      = (items.any MItem.isEntry || items.any MItem.isAnnot || decide (items.length ≥ 3)) := by
+  rw [needsMultiline, needsMultilineAux_mitems]; simp
 
 theorem emitFlatParts_mitems (items : List MItem) (h : ∀ x ∈ items, MItemEmitOK x) (hne : items.any MItem.isEntry = false)
     (ind : Nat) : emitFlatParts (items.map MItem.value) ind = some (items.map MItem.text) := by
